@@ -339,7 +339,22 @@ class Interp(ExprMixin):
                 return repr(float(f))
             return str(*a, **k)
 
+        def _cdef_hidden(o, name):
+            # cdef attributes / cdef methods of an extension type are not visible through Python's attribute protocol
+            if isinstance(o, ObjModel):
+                ci = o.__dict__["_cls"]
+                if I.attr_ctype(ci, name) is not None:
+                    return True
+                m = ci.find_method(name)
+                if m is not None and m.kind == "cdef":
+                    return True
+            return False
+
         def b_getattr(o, name, *d):
+            if _cdef_hidden(o, name):
+                if d:
+                    return d[0]
+                raise AttributeError("'%s' object has no attribute '%s'" % (o.__dict__["_cls"].name, name))
             try:
                 return I.getattr_(o, name)
             except AttributeError:
@@ -348,6 +363,8 @@ class Interp(ExprMixin):
                 raise
 
         def b_hasattr(o, name):
+            if _cdef_hidden(o, name):
+                return False
             try:
                 I.getattr_(o, name)
                 return True
@@ -794,6 +811,52 @@ class Interp(ExprMixin):
                 return True
         return False
 
+    def _mergeable(self, n):
+        """names assigned when both arms of a one-clause if are plain scalar assignments with call-free right-hand sides"""
+        key = ("m", id(n))
+        if key in self._inert_cache:
+            return self._inert_cache[key]
+        names = []
+        ok = True
+        for body in (n.if_clauses[0].body, n.else_clause):
+            if body is None:
+                continue
+            stats = body.stats if isinstance(body, N.StatListNode) else [body]
+            for st in stats:
+                if isinstance(st, (N.SingleAssignmentNode, N.InPlaceAssignmentNode)) and isinstance(st.lhs, E.NameNode) \
+                        and self._pure_cond(st.rhs):
+                    names.append(st.lhs.name)
+                else:
+                    ok = False
+        if not self._pure_cond(n.if_clauses[0].condition):
+            ok = False
+        res = sorted(set(names)) if ok and names else None
+        self._inert_cache[key] = res
+        return res
+
+    def _merge_if(self, n, fr, cv, names):
+        """if-conversion: both arms are evaluated on copies of the assigned scalars and joined with If(c, a, b)"""
+        missing = object()
+        old = {k: fr.locals.get(k, missing) for k in names}
+        self.exec(n.if_clauses[0].body, fr)
+        then = {k: fr.locals.get(k, missing) for k in names}
+        for k, v in old.items():
+            if v is missing:
+                fr.locals.pop(k, None)
+            else:
+                fr.locals[k] = v
+        if n.else_clause is not None:
+            self.exec(n.else_clause, fr)
+        els = {k: fr.locals.get(k, missing) for k in names}
+        for k in names:
+            a, b = then[k], els[k]
+            if a is b:
+                continue
+            num = lambda v: isinstance(v, (int, float, Fraction, Sym, SymBool)) and v is not missing
+            if not (num(a) and num(b)):
+                raise Unsupported("cannot merge branches assigning %s" % k)
+            fr.locals[k] = ite(cv, a, b)
+
     def _pure_cond(self, node):
         for nd in _walk(node):
             if isinstance(nd, (E.SimpleCallNode, E.GeneralCallNode)):
@@ -809,6 +872,17 @@ class Interp(ExprMixin):
             self._inert_cache[key] = skip
         if skip and _sym._CTX is not None:
             return      # branches differ only in diagnostics: not forked (DESIGN 2.6)
+        if len(n.if_clauses) == 1 and _sym._CTX is not None:
+            names = self._mergeable(n)
+            if names is not None:
+                cv = self.eval(n.if_clauses[0].condition, fr)
+                if is_sym(cv):
+                    return self._merge_if(n, fr, cv, names)
+                if self.truth(cv):
+                    self.exec(n.if_clauses[0].body, fr)
+                elif n.else_clause is not None:
+                    self.exec(n.else_clause, fr)
+                return
         for c in n.if_clauses:
             if self.truth(self.eval(c.condition, fr)):
                 self.exec(c.body, fr)
